@@ -41,8 +41,14 @@ func expectedBlind(gs *pokerface.GameState, p *pokerface.PlayerState) int64 {
 	return 0
 }
 
-func c12Body(c *run.Ctx) {
+func c12Body(c *run.Ctx) { c12BodyIv(c, 0) }
+
+// c12BodyIv: interval > 0 gives the table a real continue delay; a break may then start
+// inside it ("... the table pauses after the current hand"), judged only when the update
+// returned less than 0.9 s after the settlement was published (certainly before the step).
+func c12BodyIv(c *run.Ctx, interval int) {
 	nontrivial := false
+	skipPause := false
 	var inForce pokertable.TableBlindState // in force for the hand about to open / running
 	var latest pokertable.TableBlindState  // last values the harness set
 	level := 1
@@ -207,6 +213,26 @@ func c12Body(c *run.Ctx) {
 		Mem:          sim.MemOpts{NewPlayer: 3, Rebuy: 4, Leave: 1, KeepSitting: 10, MaxNewID: 12, TopupAnyone: true},
 		RearmOnLeave: true,
 	}
+	if interval > 0 {
+		hooks.Settled = func(s *sim.Sim, h *sim.Hand) {
+			skipPause = false
+			if latest.Level == -1 || !choose.Chance(c.Ch, "blind.indelay", 60) {
+				return
+			}
+			time.Sleep(time.Duration(c.Ch.Int("blind.indelay.offset", 0, 6)) * 100 * time.Millisecond)
+			b := pokertable.TableBlindState{Level: -1, Ante: latest.Ante, Dealer: latest.Dealer, SB: latest.SB, BB: latest.BB}
+			if choose.Chance(c.Ch, "blind.indelay.level", 30) {
+				b = drawBlind(s, s.Cfg.Rule == pokertable.CompetitionRule_ShortDeck)
+			}
+			update(s, b, "in_continue_delay")
+			if time.Since(h.SettledAt) >= 900*time.Millisecond {
+				skipPause = true
+				c.St.Exclude("update_not_certainly_before_the_continue_step", 1)
+			} else if b.Level == -1 {
+				s.Label("break_in_continue_delay")
+			}
+		}
+	}
 	o.Prepare = func(s *sim.Sim) {
 		inForce = s.Cfg.Blind
 		latest = s.Cfg.Blind
@@ -302,8 +328,8 @@ func c12Body(c *run.Ctx) {
 				c.Failf("C12.create-options", "hand %d created with ante %d blinds %+v, in force at open: %+v", h.N, op.Ante, op.Blind, inForce)
 			}
 		}
-		if latest.Level == -1 {
-			// break set while the hand was running: the table pauses after it
+		if latest.Level == -1 && !skipPause {
+			// break set while the hand was running (or inside the continue delay): the table pauses after it
 			if h.Outcome != "paused" {
 				c.Failf("C12.no-pause-on-break", "level became a break during hand %d but afterwards the table did: %s (status %s)", h.N, h.Outcome, h.After.State.Status)
 			}
@@ -311,8 +337,24 @@ func c12Body(c *run.Ctx) {
 			nontrivial = true
 		}
 	}
-	s := RunHistory(c, o, hooks, nil)
+	var s *sim.Sim
+	if interval > 0 {
+		o.MinHands, o.MaxHands = 1, 3
+		cfg := sim.GenConfig(c.Ch, o.Gen)
+		cfg.Interval = interval
+		cfg.ViaManager = facadeViaManager
+		s = RunHistoryCfg(c, cfg, o, hooks, nil)
+		s.Label("real_continue_delay")
+	} else {
+		s = RunHistory(c, o, hooks, nil)
+	}
 	c.St.Case(s.Labels(), nontrivial, traceOf(s), sampleOf(s))
+}
+
+var c12iStats = ev.New("C12", "c12i")
+
+func TestC12Interval(t *testing.T) {
+	run.Property(t, "C12", "c12i", c12iStats, run.Scale(5, 20), func(c *run.Ctx) { c12BodyIv(c, 1) })
 }
 
 // created on a break: starts paused, and stays without a hand
